@@ -21,7 +21,7 @@ def load():
     return af, evaluate_mapping
 
 
-def gen_search_spec(rng, max_space=6000, fancy=True, levels=(2, 2, 3), pool=(2, 2, 3, 4)):
+def gen_search_spec(rng, max_space=6000, fancy=True, levels=(2, 2, 3), pool=(2, 2, 3, 4), enumerate_space=True):
     """a spec whose whole mapspace is small enough to enumerate; returns (spec, space)"""
     while True:
         spec = G.gen_spec(rng, max_levels=rng.choice(levels), bounds_pool=pool, fancy=fancy)
@@ -34,6 +34,8 @@ def gen_search_spec(rng, max_space=6000, fancy=True, levels=(2, 2, 3), pool=(2, 
             spec["compute"]["thr"] = rng.choice([2, 4, 8])
         for L in spec["levels"][1:]:
             L["size"] = rng.choice([None, 128, 64, 32, 16])
+        if not enumerate_space:
+            return spec, None
         space = S.enumerate_space(spec)
         if 2 <= len(space) <= max_space:
             return spec, space
